@@ -338,6 +338,9 @@ public:
         m_fac(ArnoldiOpType(op, Bop), m_ncv),
         m_info(CompInfo::NotComputed)
     {
+        if (m_op.cols() != m_n)
+            throw std::invalid_argument("GenEigsBase: the matrix operation must be square");
+
         if (nev < 1 || nev > m_n - 2)
             throw std::invalid_argument("nev must satisfy 1 <= nev <= n - 2, n is the size of matrix");
 
